@@ -190,6 +190,8 @@ Skel(es) == [i \in DOMAIN es |-> <<es[i].lvl, es[i].ev, es[i].c, es[i].mk, es[i]
 (*   class  = [hdr, pool, mid, fields, methods, attrs]  hdr = magic+version, mid = access..interfaces        *)
 CodePre == 11          \* max_stack, max_locals, code_length, one instruction, exception_table_length
 CodeInsns == 1
+ExcRow == 8            \* one row of the exception table (the shapes have none or one, ending at code_length)
+ExcLen(a) == IF a.excend THEN ExcRow ELSE 0
 AttrSize(a) == 6 + a.len
 AttrsSize(as) == 2 + SumSeq([i \in DOMAIN as |-> AttrSize(as[i])])
 MemberSize(m) == m.fixed + AttrsSize(m.attrs)
@@ -208,7 +210,7 @@ OffClassAttr(c, i) == OffClassAttrs(c) + 2 + SumSeq([j \in 1..(i - 1) |-> AttrSi
 
 (* attribute_length agrees with the nested structure *)
 WellFormedAttr(lvl, a) ==
-    CASE lvl = "method" /\ a.name = "Code" -> a.len = CodePre + AttrsSize(a.sub)
+    CASE lvl = "method" /\ a.name = "Code" -> a.len = CodePre + ExcLen(a) + AttrsSize(a.sub)
       [] lvl = "class" /\ a.name = "Record" -> a.len = 2 + SumSeq([i \in DOMAIN a.sub |-> CompSize(a.sub[i])])
       [] a.name \in {"Deprecated", "Synthetic"} -> a.len = 0
       [] OTHER -> a.sub = <<>>
@@ -294,7 +296,8 @@ ReadCodeAttrs(as, M, c, mi, acc) ==
 
 (* read_code: max_stack/max_locals, code, exception table, nested attributes, then the instruction loop *)
 ReadCode(a, M, c, mi, cur) ==
-    LET nested == ReadCodeAttrs(a.sub, M, c, mi, [cur |-> cur + CodePre + 2, evs |-> <<>>, frames |-> FALSE, lines |-> FALSE, lvt |-> FALSE, lvtt |-> FALSE, endlabel |-> FALSE])
+    LET nested == ReadCodeAttrs(a.sub, M, c, mi, [cur |-> cur + CodePre + ExcLen(a) + 2, evs |-> <<>>, frames |-> FALSE, lines |-> FALSE, lvt |-> FALSE, lvtt |-> FALSE,
+                                                 endlabel |-> a.excend])      \* the exception table is always parsed: its exclusive end may be the end of the code
         insns == [i \in 1..CodeInsns |-> Ev("code", "visit_instruction", c, "m", mi, "", IF nested.frames /\ i = 1 THEN FrameDigest ELSE "")]
     IN [cur |-> nested.cur,
         evs |-> <<Ev("code", "visit_max_stack_and_max_locals", c, "m", mi, "", "")>> \o nested.evs \o insns
@@ -506,7 +509,7 @@ AcceptCode(a, M, c, mi) ==
                ELSE <<>>
     IN <<Ev("code", "visit_max_stack_and_max_locals", c, "m", mi, "", "")>> \o insns
        \o <<Ev("code", "visit_exception_table", c, "m", mi, "", "")>>
-       \o (IF \E j \in DOMAIN a.sub : a.sub[j].endref THEN <<Ev("code", "visit_last_label", c, "m", mi, "", "")>> ELSE <<>>)
+       \o (IF a.excend \/ \E j \in DOMAIN a.sub : a.sub[j].endref THEN <<Ev("code", "visit_last_label", c, "m", mi, "", "")>> ELSE <<>>)
        \o (IF has("lines") /\ M.code.line_number_table THEN <<Ev("code", "visit_line_numbers", c, "m", mi, "", "")>> ELSE <<>>)
        \o (LET t == hasName("LocalVariableTable") /\ M.code.local_variable_table          \* rows of a table the visitor did not
                 y == hasName("LocalVariableTypeTable") /\ M.code.local_variable_type_table  \* ask for are not replayed either
